@@ -38,12 +38,21 @@ func init() {
 	})
 
 	addWitness(witness{Prop: "C16", Name: "excl-only-first-operand", File: "pkg/storage/localfs/store.go",
-		Old:    "\t\toperation := func() error {\n\t\t\ttarget, err = l.fs.OpenFile(key, flag, 0600)\n\t\t\tif err != nil {\n\t\t\t\treturn fmt.Errorf(\"create record for %q: %v\", key, err)\n\t\t\t}\n\t\t\t_, err = storage.PipeIO(",
-		New:    "\t\toperation := func() error {\n\t\t\ttarget, err = l.fs.OpenFile(key, os.O_CREATE|os.O_WRONLY|os.O_SYNC|os.O_TRUNC, 0600)\n\t\t\tif err != nil {\n\t\t\t\treturn fmt.Errorf(\"create record for %q: %v\", key, err)\n\t\t\t}\n\t\t\t_, err = storage.PipeIO(",
+		Old:    "\t\toperation := func() error {\n\t\t\ttarget, err = l.fs.OpenFile(name, flag, 0600)\n\t\t\tif err != nil {\n\t\t\t\treturn fmt.Errorf(\"create record for %q: %v\", key, err)\n\t\t\t}\n\t\t\t_, err = storage.PipeIO(",
+		New:    "\t\toperation := func() error {\n\t\t\ttarget, err = l.fs.OpenFile(name, os.O_CREATE|os.O_WRONLY|os.O_SYNC|os.O_TRUNC, 0600)\n\t\t\tif err != nil {\n\t\t\t\treturn fmt.Errorf(\"create record for %q: %v\", key, err)\n\t\t\t}\n\t\t\t_, err = storage.PipeIO(",
 		Expect: "put.exclusive"})
 	addWitness(witness{Prop: "C16", Name: "loser-removes-key", File: "pkg/storage/localfs/store.go",
-		Old: "\tif exclusive {\n\t\tflag |= os.O_EXCL\n\t}", New: "\tif exclusive {\n\t\tflag |= os.O_EXCL\n\t\tdefer func() {\n\t\t\tif err != nil {\n\t\t\t\t_ = l.fs.Remove(key)\n\t\t\t}\n\t\t}()\n\t}",
+		Old: "\t\tif exclusive {\n\t\t\treturn err\n\t\t}\n\t\tif err == nil {\n\t\t\terr = l.fs.Rename(name, key)", New: "\t\tif err == nil && !exclusive {\n\t\t\terr = l.fs.Rename(name, key)",
 		Expect: "put.no-remove"})
+	addWitness(witness{Prop: "C16", Name: "overwrite-in-place", File: "pkg/storage/localfs/store.go",
+		Old: "\tname := key\n\tif !exclusive {\n\t\tname = fmt.Sprintf(", New: "\tname := key\n\tif !exclusive && l.lock {\n\t\tname = fmt.Sprintf(",
+		Expect: "put.overwrite.staged"})
+	addWitness(witness{Prop: "C15", Name: "overwrite-in-place", File: "pkg/storage/localfs/store.go",
+		Old: "\tname := key\n\tif !exclusive {\n\t\tname = fmt.Sprintf(", New: "\tname := key\n\tif !exclusive && l.lock {\n\t\tname = fmt.Sprintf(",
+		Expect: "put.overwrite.staged"})
+	addWitness(witness{Prop: "C16", Name: "excl-flag-dropped-for-staging", File: "pkg/storage/localfs/store.go",
+		Old: "\tflag := os.O_CREATE | os.O_WRONLY | os.O_SYNC | os.O_TRUNC | os.O_EXCL\n", New: "\tflag := os.O_CREATE | os.O_WRONLY | os.O_SYNC | os.O_TRUNC\n",
+		Expect: "put.exclusive.flag"})
 	addWitness(witness{Prop: "C16", Name: "prefix-separator-lost", File: "pkg/storage/localfs/store.go",
 		Old: "\tif isDirPrefix && prefix != \"/\" {", New: "\tif isDirPrefix && prefix == \"/\" {",
 		Expect: "keysprefix.separator"})
@@ -113,80 +122,9 @@ func runC16(c *Ctx) {
 	p := c.P
 	c.assume("the operating system implements O_EXCL atomically; afero's OsFs passes flags through unchanged")
 	f := p.Func("pkg/storage/localfs.localFS.Put")
-	info := f.Info()
 	// (a)
 	{
-		var flagVar *types.Var
-		nOpen := 0
-		ast.Inspect(f.Decl.Body, func(nd ast.Node) bool {
-			call, ok := nd.(*ast.CallExpr)
-			if !ok || !strings.HasSuffix(calleeID(info, call), "afero.Fs.OpenFile") {
-				return true
-			}
-			nOpen++
-			key := describeExpr(f, call.Args[0], 0)
-			id, isID := ast.Unparen(call.Args[1]).(*ast.Ident)
-			okArgs := key == "param#1" && isID
-			if isID {
-				v, _ := info.Uses[id].(*types.Var)
-				if flagVar == nil {
-					flagVar = v
-				}
-				if v != flagVar {
-					okArgs = false
-				}
-			}
-			c.check(okArgs, "put.exclusive.every-open", callKey(f, call), p.Pos(call.Pos()), "OpenFile(key, flag, ...) with the shared flag variable", "an OpenFile of Put does not use (key, the flag variable carrying O_EXCL): `"+exprString(call.Args[0])+", "+exprString(call.Args[1])+"` — a create-if-absent write through this operand silently overwrites")
-			return true
-		})
-		c.check(nOpen == 2, "put.exclusive.every-open", f.ID+":sites", p.Pos(f.Decl.Pos()), "two OpenFile sites (WriterTo and PipeIO operands)", "expected the two OpenFile sites of Put, found "+itoa(nOpen))
-		if flagVar != nil {
-			// definitions: base flags, and |= O_EXCL under `if exclusive`
-			okBase, okExcl := false, false
-			nDefs := 0
-			b := p.BodyOf(f)
-			ast.Inspect(f.Decl.Body, func(nd ast.Node) bool {
-				as, ok := nd.(*ast.AssignStmt)
-				if !ok || len(as.Lhs) != 1 || !isVar(info, as.Lhs[0], flagVar) {
-					return true
-				}
-				nDefs++
-				switch as.Tok {
-				case token.DEFINE, token.ASSIGN:
-					if tv, ok := info.Types[as.Rhs[0]]; ok && tv.Value != nil {
-						v := tv.Value.String()
-						// O_CREATE|O_WRONLY|O_TRUNC must be present, O_EXCL absent: compare with the constants' values
-						want := constInt(p, "os", "O_CREATE") | constInt(p, "os", "O_WRONLY") | constInt(p, "os", "O_TRUNC")
-						have := parseInt(v)
-						okBase = have&want == want && have&constInt(p, "os", "O_EXCL") == 0
-					}
-				case token.OR_ASSIGN:
-					if tv, ok := info.Types[as.Rhs[0]]; ok && tv.Value != nil && parseInt(tv.Value.String()) == constInt(p, "os", "O_EXCL") {
-						// guarded exactly by the exclusive parameter
-						if ifs, ok := b.parent[b.parent[as]].(*ast.IfStmt); ok && describeExpr(f, ifs.Cond, 0) == "param#3" {
-							okExcl = true
-						}
-					}
-				}
-				return true
-			})
-			c.check(okBase && okExcl && nDefs == 2, "put.exclusive.flag", f.ID, p.Pos(f.Decl.Pos()), "flag = O_CREATE|O_WRONLY|O_TRUNC(|O_SYNC), plus O_EXCL exactly when exclusive", "the open flags are no longer (create|write-only|truncate) with O_EXCL added exactly when the exclusive parameter is set: create-if-absent is lost or always on")
-		}
-		// nothing in Put removes a key
-		nRemove := 0
-		ast.Inspect(f.Decl.Body, func(nd ast.Node) bool {
-			if call, ok := nd.(*ast.CallExpr); ok {
-				id := calleeID(info, call)
-				if strings.HasSuffix(id, "afero.Fs.Remove") || strings.HasSuffix(id, "afero.Fs.RemoveAll") || strings.HasSuffix(id, "afero.Fs.Rename") {
-					nRemove++
-					c.fail("put.no-remove", callKey(f, call), p.Pos(call.Pos()), "Put removes or renames a key: when an exclusive write loses (file exists) this unlinks the winner's record")
-				}
-			}
-			return true
-		})
-		if nRemove == 0 {
-			c.ok("put.no-remove", f.ID, p.Pos(f.Decl.Pos()), "Put never removes or renames a key")
-		}
+		checkLocalfsPutOpens(c, f)
 		io := func(id string) bool {
 			return strings.HasSuffix(id, "afero.Fs.OpenFile") || strings.HasSuffix(id, "afero.File.Close") || id == "io.WriterTo.WriteTo" || id == "pkg/storage.PipeIO" || strings.HasSuffix(id, "afero.Fs.MkdirAll") || strings.HasSuffix(id, "backoff/v4.Retry")
 		}
@@ -209,7 +147,7 @@ func runC16(c *Ctx) {
 			if !ok {
 				return true
 			}
-			d := describeExpr(g, ifs.Cond, 0)
+			d := describeExprAt(g, ifs.Cond)
 			if strings.HasPrefix(d, "(call:strings.HasSuffix(param#2,const:\"/\")&&(") && strings.HasSuffix(d, "!=const:\"/\"))") {
 				for _, st := range ifs.Body.List {
 					if as, ok := st.(*ast.AssignStmt); ok && as.Tok == token.ADD_ASSIGN && describeExpr(g, as.Rhs[0], 0) == "const:\"/\"" {
@@ -467,6 +405,7 @@ func runC16(c *Ctx) {
 	checkReadCountConsumed(c, "put.count-before-eof")
 	checkLocalfsDeleteOnlyKey(c, "delete.only-the-key")
 	checkGenericErrorDiscipline(c, "pkg/storage/localfs", "pkg/storage")
+	checkHasIsExistenceOnly(c, "has.existence-only")
 }
 
 // shortCircuitProtects: in `err != nil || <uses info>` (or `err == nil && <uses info>`) the use of info is evaluated
@@ -744,7 +683,7 @@ func runC19(c *Ctx) {
 			case *ast.IfStmt:
 				// `if <max param> > maxEntriesPerList { <max param> = maxEntriesPerList }`, the parameter being the one
 				// handed to KeysPrefix as page size
-				if nos(describeExpr(lt, x.Cond, 0)) == "(param#2>const:"+capConst+")" && len(x.Body.List) == 1 {
+				if nos(describeExprAt(lt, x.Cond)) == "(param#2>const:"+capConst+")" && len(x.Body.List) == 1 {
 					if as, ok := x.Body.List[0].(*ast.AssignStmt); ok && len(as.Lhs) == 1 && len(as.Rhs) == 1 {
 						if id, ok := ast.Unparen(as.Lhs[0]).(*ast.Ident); ok {
 							if v, ok := lt.Info().Uses[id].(*types.Var); ok && paramIndex(lt, v) == 2 && describeExpr(lt, as.Rhs[0], 0) == "const:"+capConst {
@@ -775,7 +714,7 @@ func runC19(c *Ctx) {
 		// max passed on
 		okMax := false
 		ast.Inspect(lt.Decl.Body, func(nd ast.Node) bool {
-			if call, ok := nd.(*ast.CallExpr); ok && calleeID(info, call) == "pkg/storage.Store.KeysPrefix" && len(call.Args) == 5 && describeExpr(lt, call.Args[4], 0) == "param#2" {
+			if call, ok := nd.(*ast.CallExpr); ok && calleeID(info, call) == "pkg/storage.Store.KeysPrefix" && len(call.Args) == 5 && describeExprAt(lt, call.Args[4]) == "{const:"+capConst+"|param#2}" {
 				okMax = true
 			}
 			return true
@@ -784,6 +723,8 @@ func runC19(c *Ctx) {
 	}
 	checkWALDecoderAcceptsWhatAddStores(c, "codec-pairing.decoder-accepts")
 	checkGenericErrorDiscipline(c, "pkg/wal", "pkg/model")
+	checkWALCollectorDrains(c, "listing.collector-drains")
+	checkPutSourceFreshPerAttempt(c, "add.source-fresh-per-attempt", "pkg/wal", "pkg/core", "pkg/cafs")
 }
 
 func enumPutSitesAny(p *Prog, pkgs ...string) []putSite { return enumPutSites(p, pkgs...) }
